@@ -282,7 +282,9 @@ pub fn run(ctx: &Ctx) -> Report {
 	total.merge(r);
 	// ---- differential on ordered pairs of a sub-domain
 	let sub: Vec<Vec<u8>> = {
-		let mut paths: Vec<&str> = vec!["", "/", "/a", "/a/b", "/a/./b/..", "a", "a/b", "../a", "//a", "/%61"];
+		let mut paths: Vec<&str> = vec!["", "/", "/a", "/a/b", "/a/./b/..", "a", "a/b", "../a", "//a", "/%61",
+			// a sub-delimiter below '/' where another path has '/': segment order != byte order
+			"a-b", "a-b/c", "/a-b", "/a!b/c"];
 		if !ctx.quick() {
 			paths.extend(["a:b", "./a:b", "/a/", "/a//b", ".", ".."]);
 		}
